@@ -126,7 +126,8 @@ def bases(draw):
         b["t1"]["radius_cap"] = draw(st.sampled_from([1, 2, 4]))
     if draw(_B):
         b["t1"]["queue_budget"] = draw(st.sampled_from([2, 5, 10000]))
-    feats = draw(st.sets(st.sampled_from(["perf_on", "gel_on", "hybrid_on", "quality_on", "reflection_on", "sched_on", "caches_off"]), max_size=4))
+    feats = draw(st.sets(st.sampled_from(["perf_on", "gel_on", "hybrid_on", "quality_on", "reflection_on", "sched_on", "caches_off",
+                                          "snippet_template", "snippet_template", "slice_t2k"]), max_size=4))
     return {"over": b, "feats": sorted(feats)}
 
 
@@ -147,6 +148,12 @@ def feature_overrides(feats, gate):
         o = world.deep_merge(o, {"scheduler": {"enabled": True, "quantum_ms": 10 ** 8, "budgets": {"wall_ms": 10 ** 9}}})
     if "caches_off" in feats:
         o = world.deep_merge(o, {"t1": {"cache": {"enabled": False}}, "t2": {"cache": {"enabled": False}}, "t4": {"cache": {"enabled": False}}})
+    if "snippet_template" in feats:
+        # the utterance names the top retrieved episodes in order: retrieval ORDER becomes observable
+        o = world.deep_merge(o, {"t3": {"dialogue": {"template": "say {labels} | {snippets} | {intent}", "include_top_k_snippets": 3}}})
+    if "slice_t2k" in feats and gate != "scheduler" and "sched_on" not in feats:
+        # slice cap on hits used: the residual nudges (k_residual in t2.jsonl) depend on which hits come first
+        o = world.deep_merge(o, {"scheduler": {"enabled": True, "quantum_ms": 10 ** 8, "budgets": {"wall_ms": 10 ** 9, "t2_k": 1}}})
     return o
 
 
@@ -154,6 +161,9 @@ def feature_overrides(feats, gate):
 def cases(draw, gate=None):
     gate = gate or draw(st.sampled_from(GATES))
     base = draw(bases())
+    if gate in ("quality", "hybrid") and draw(st.sampled_from([True, True, False])) and "snippet_template" not in base["feats"]:
+        # rerank layers only permute the hits: make the order observable (utterance lists the top snippets)
+        base["feats"] = sorted(base["feats"] + ["snippet_template"])
     # world
     eps = draw(world.episode_lists(max_eps=10, owners=["A", "B", "world"], allow_missing_ts=False,
                                    ids=["e1", "e2", "e3", "e4", "e5", "e6", "e7", "e8", "e9", "e10"]))
@@ -258,7 +268,8 @@ def run_script(case, overrides):
         logs = eng.logs()
         obs["canonical"] = observe.canonical(logs)
         obs["t3"] = {k: _mask_t3(v) for k, v in logs.items() if k in observe.NONCANONICAL_TIMED and k != "gel.jsonl"}
-        obs["other_logs"] = {k: v for k, v in logs.items() if k not in observe.CANONICAL and k not in observe.NONCANONICAL_TIMED}
+        obs["other_logs"] = {k: (observe.mask_scheduler(v) if k == "scheduler.jsonl" else v) for k, v in logs.items()
+                             if k not in observe.CANONICAL and k not in observe.NONCANONICAL_TIMED}  # consumed.ms is wall time
         obs["snap_bodies"] = {k: v for k, v in eng.snaps().items() if not k.endswith(".meta")}
         obs["listing"] = eng.listing()
         obs["normalized_cfg"] = json.loads(json.dumps(cfg, default=repr))
@@ -369,5 +380,5 @@ def replay_case(case):
 
 
 SUBCHECKS = [
-    Sub("gates", sub_gates, quick={"n": 140}, thorough={"n": 1500}, shards_quick=7, shards_thorough=14, replay=replay_case),
+    Sub("gates", sub_gates, quick={"n": 260}, thorough={"n": 2000}, shards_quick=7, shards_thorough=14, replay=replay_case),
 ]
